@@ -102,6 +102,29 @@ def gen_c02(r):
     return g
 
 
+def gen_c02_dead_peers(r):
+    """More listed peers than the client dials at once; the useful ones come first in the list
+    (dialled last) and nobody listens on the other addresses (TCP connection refused)."""
+    g, n = gen_geometry(r)
+    peers = [dict(port=7001, id="-FK0000-abcdefghijkl", incoming=False, have=[True] * n, seed=r.getrandbits(32), chunk=0, latency_ms=0, unchoke_delay_ms=0)]
+    for k in range(r.randint(11, 13)):
+        peers.append(dict(port=7100 + k, id="-FK%04d-abcdefghijkl" % (100 + k), incoming=False, have=[False] * n, seed=0, dead=True))
+    g.update(peers=peers, tracker_faults=[], tracker_port=8000, timeout_s=90, stall_s=15)
+    return g
+
+
+def gen_c02_all_incoming(r):
+    """The tracker knows nobody; two or three seeders with complementary pieces connect in."""
+    g, n = gen_geometry(r)
+    k = r.randint(2, 3)
+    haves = [[False] * n for _ in range(k)]
+    for i in range(n):
+        haves[r.randrange(k)][i] = True
+    peers = [dict(port=7001 + j, id="-FK%04d-abcdefghijkl" % j, incoming=True, have=haves[j], seed=r.getrandbits(32), chunk=0, latency_ms=r.choice([0, 5]), unchoke_delay_ms=0, connect_delay_ms=300 + 150 * j) for j in range(k)]
+    g.update(peers=peers, tracker_faults=[], tracker_port=8000, timeout_s=90, stall_s=15)
+    return g
+
+
 def gen_c01(r):
     g = gen_c02(r)
     n = len(g["peers"][0]["have"])
@@ -160,8 +183,15 @@ def e2e(cid, tier, seed, jobs, scale, outdir, m, log, asan=False):
     r = random.Random((seed << 8) ^ hash(cid) % 1000003 ^ (77 if asan else 0))
     gen = GENS[cid]
     scs = [gen(r) for _ in range(n)]
-    if cid == "C19" and tier == "thorough" and not asan:
-        scs += [gen_c19(r, 70), gen_c19(r, 66)]
+    if cid == "C02" and not asan:
+        scs += [gen_c02_dead_peers(r), gen_c02_all_incoming(r), gen_c02_all_incoming(r)]
+        if tier == "thorough":
+            scs += [gen_c02_dead_peers(r) for _ in range(10)] + [gen_c02_all_incoming(r) for _ in range(20)]
+    if cid == "C19" and not asan:
+        # longer runs of failures: the real HTTP client's retry loop must keep going
+        scs += [gen_c19(r, 6), gen_c19(r, 9)]
+        if tier == "thorough":
+            scs += [gen_c19(r, 70), gen_c19(r, 66), gen_c19(r, 17), gen_c19(r, 33)]
     if asan:
         for sc in scs:
             sc["env"] = {"ASAN_OPTIONS": "halt_on_error=1:abort_on_error=1:detect_leaks=0"}
